@@ -9,19 +9,24 @@
 //!   `G <m|r|c> <key> <cands>`          the same `get` on the socket's TYPED tables (`MappedAddrs`: EndpointId /
 //!                                      (RelayUrl, EndpointId) / CustomAddr keys, injectively indexed by <key>)
 //!   `x <4:8 hex | 6:32 hex> <port>`    the real `to_transport_addr` on those typed tables
+//!   `B <src,src,..>`                   one synthetic receive batch through the REAL `Socket::process_datagrams` of a
+//!                                      live endpoint (src = r<key> | c<key> | i<8 hex v4>): which address each datagram
+//!                                      is labelled with, translated back by `Socket::to_transport_addr`
 //! output: per op, joined by `;`:
 //!   g → `<addr 32 hex>:<port>:<candidates consumed>`    l → `some:<key>` | `none` | `notkind`
 //!   k → `ip|mixed|relay|custom`                          t → `ok`
 //!   G → as g                                             x → `ip|relay:<key>|custom:<key>|none`
+//!   B → per datagram `relay:<key>|custom:<key>|ip`, joined by `,`
 use std::collections::HashMap;
 use std::net::{IpAddr, Ipv4Addr, Ipv6Addr, SocketAddr};
 
 use iroh::verif_hooks::mapped_addrs::{self as hk, Kind, Maps};
-use iroh::verif_hooks::mapped_tables::{Table, TypedMaps};
+use iroh::verif_hooks::mapped_tables::{self as mt, Src, Table, TypedMaps};
 use vcommon::*;
 
 struct C18 {
     fresh: u64,
+    rt: tokio::runtime::Runtime,
 }
 
 const PREFIX: [u8; 6] = [0xfd, 0x15, 0x07, 0x0a, 0x51, 0x0b];
@@ -306,6 +311,28 @@ impl Prop for C18 {
                 out.push(format!("k 6:{} 12345", hex(&b)));
             }
         }
+        // receive-side labelling on a live socket: consecutive datagrams of one endpoint via
+        // different relays, repeated sources, interleaved kinds
+        out.push("B r0,r3,r0,r3;B r3,r0".into()); // keys 0 and 3: same relay url, different endpoint ids
+        out.push("B r3,r4,r3,r5,r4;B r5,r3".into()); // keys 3,4,5: SAME endpoint id via three different relays
+        out.push("B r1,c1,i7f000001,r1,c1".into());
+        let bcases = if tier == Tier::Thorough { 400 } else { 40 };
+        for _ in 0..bcases {
+            let nb = rng.range(1, 3);
+            let mut bs = Vec::new();
+            for _ in 0..nb {
+                let len = rng.range(1, 8);
+                let srcs: Vec<String> = (0..len)
+                    .map(|_| match rng.below(8) {
+                        0 => format!("c{}", rng.below(7)),
+                        1 => format!("i{:08x}", 0x0a000000u32 + rng.below(4) as u32),
+                        _ => format!("r{}", rng.below(9)),
+                    })
+                    .collect();
+                bs.push(format!("B {}", srcs.join(",")));
+            }
+            out.push(bs.join(";"));
+        }
         while out.len() < n {
             let nops = rng.range(1, 24) as usize;
             out.push(self.gen_case(rng, nops));
@@ -319,6 +346,8 @@ impl Prop for C18 {
         let mut typed_key: HashMap<SocketAddr, (u8, u64)> = HashMap::new();
         let mut outs: Vec<String> = Vec::new();
         let mut ex = Exec::default();
+        let mut live_ep: Option<iroh::Endpoint> = None;
+        let mut labelled: HashMap<String, SocketAddr> = HashMap::new();
         // oracle state: what the property demands, tracked independently of the model
         let mut addr_of: HashMap<(u8, u64), SocketAddr> = HashMap::new();
         let mut key_of: HashMap<(u8, SocketAddr), u64> = HashMap::new();
@@ -478,6 +507,61 @@ impl Prop for C18 {
                     ex.tags.push(format!("translate-{}", got.split(':').next().unwrap_or("?")));
                     outs.push(got);
                 }
+                "B" => {
+                    if live_ep.is_none() {
+                        let r = self.rt.block_on(async {
+                            iroh::Endpoint::builder(iroh::endpoint::presets::Minimal)
+                                .relay_mode(iroh::RelayMode::Disabled)
+                                .bind()
+                                .await
+                        });
+                        match r {
+                            Ok(ep) => live_ep = Some(ep),
+                            Err(e) => return Exec { infra: Some(format!("bind: {e:?}")), ..Default::default() },
+                        }
+                    }
+                    let ep = live_ep.as_ref().unwrap();
+                    let toks: Vec<&str> = t[1].split(',').collect();
+                    let srcs: Vec<Src> = toks
+                        .iter()
+                        .map(|s| match &s[..1] {
+                            "r" => Src::Relay(s[1..].parse().unwrap()),
+                            "c" => Src::Custom(s[1..].parse().unwrap()),
+                            _ => {
+                                let b = unhex(&s[1..]).unwrap();
+                                Src::Ip(SocketAddr::new(IpAddr::V4(Ipv4Addr::new(b[0], b[1], b[2], b[3])), 4433))
+                            }
+                        })
+                        .collect();
+                    let _g = self.rt.enter();
+                    let res = mt::label_batch(ep, &srcs);
+                    let mut parts = Vec::new();
+                    for (tok, (addr, tr)) in toks.iter().zip(res.iter()) {
+                        let want = match &tok[..1] {
+                            "r" => format!("relay:{}", &tok[1..]),
+                            "c" => format!("custom:{}", &tok[1..]),
+                            _ => "ip".to_string(),
+                        };
+                        if *tr != want {
+                            ex.violation("labelled-wrong", format!("datagram from {tok} was labelled {addr}, which translates back to {tr}"));
+                        }
+                        if &tok[..1] != "i" {
+                            if let Some(prev) = labelled.insert(tok.to_string(), *addr) {
+                                if prev != *addr {
+                                    ex.violation("unstable", format!("source {tok} labelled {prev} and later {addr}"));
+                                }
+                            }
+                        }
+                        parts.push(tr.clone());
+                    }
+                    let distinct: std::collections::HashSet<_> = labelled.values().collect();
+                    if distinct.len() != labelled.len() {
+                        ex.violation("shared", "two sources share one synthetic address".to_string());
+                    }
+                    outs.push(parts.join(","));
+                    ex.tags.push("recv-batch".into());
+                    nontrivial = true;
+                }
                 "t" => {
                     let th: usize = t[1].parse().unwrap();
                     let keys: u64 = t[2].parse().unwrap();
@@ -495,6 +579,9 @@ impl Prop for C18 {
                 other => panic!("bad op {other}"),
             }
         }
+        if let Some(ep) = live_ep.take() {
+            self.rt.block_on(ep.close());
+        }
         ex.out = outs.join(";");
         ex.nontrivial = nontrivial || addr_of.len() > 1;
         ex
@@ -502,5 +589,6 @@ impl Prop for C18 {
 }
 
 fn main() {
-    run(C18 { fresh: 0 });
+    let rt = tokio::runtime::Builder::new_multi_thread().worker_threads(2).enable_all().build().unwrap();
+    run(C18 { fresh: 0, rt });
 }
